@@ -258,8 +258,9 @@ class Extractor:
         args = e.get("args", [])
         takes_reader = any(self.marker in (a.get("ty") or "") for a in args)
         short = callee.split("::")[-1]
-        if takes_reader and short in self.opaque:
-            out.append(("opq", short))
+        if takes_reader and callee in self.hir and (short in self.opaque or _has_open_loop(self.hir[callee]["body"])):
+            # a helper that reads a variable-length code in a `loop`/`while`: one opaque element (uvlc, leb128, ..)
+            out.append(("opq", "vlc"))
             return None
         if takes_reader and callee in self.hir:
             if self.depth > 6:
@@ -281,6 +282,16 @@ class Extractor:
         for a in args:
             self.ev(a, env, out)
         return ("opaque", short)
+
+
+def _has_open_loop(e):
+    if isinstance(e, dict):
+        if e.get("k") == "loop" and not str(e.get("src", "")).startswith("ForLoop"):
+            return True
+        return any(_has_open_loop(v) for v in e.values())
+    if isinstance(e, list):
+        return any(_has_open_loop(v) for v in e)
+    return False
 
 
 def dict_view(d):
@@ -446,7 +457,7 @@ def av1_sequence_header_spec():
         rd(1, "timing_info_present_flag"),
         If(R("timing_info_present_flag"), [
             rd(32, "num_units_in_display_tick"), rd(32, "time_scale"), rd(1, "equal_picture_interval"),
-            If(R("equal_picture_interval"), [("opq", "skip_uvlc")]),
+            If(R("equal_picture_interval"), [("opq", "vlc")]),
             rd(1, "decoder_model_info_present_flag"),
             If(R("decoder_model_info_present_flag"), [rd(5, "buffer_delay_length_minus_1"), rd(32, "num_units_in_decoding_tick"),
                                                       rd(5, "buffer_removal_time_length_minus_1"), rd(5, "frame_presentation_time_length_minus_1")]),
